@@ -314,6 +314,40 @@ theorem explicit_marker_variable_value (name mn : Str) (ts : List Transformer) (
 
 end transformers
 
+/-! ### Tie of the transformer dispatch to the source (regenerated constants) -/
+
+/-- Every kind dispatched by `Transformer::to_transform` in the source (list regenerated on every run by
+tools/consts.d/marker.py) is recognised by the model when all option keys named in the source are present … -/
+theorem transformer_kinds_recognised (k : String) (hk : k ∈ Rio.Consts.markerTransformerKinds) :
+    (Transformer.toTransform ⟨some k.toList,
+      some ((Rio.Consts.markerTransformerOptions.flatMap (·.2)).map fun o => (o.toList, []))⟩).isSome = true := by
+  simp only [Rio.Consts.markerTransformerKinds, List.mem_cons, List.not_mem_nil, or_false] at hk
+  rcases hk with rfl | rfl | rfl | rfl | rfl | rfl | rfl <;>
+    simp [Transformer.toTransform, List.lookup, Rio.Consts.markerTransformerOptions]
+
+/-- … and the model recognises no other kind. -/
+theorem transformer_kinds_only (t : Transformer) (k : Str) (hk : t.kind = some k) (h : t.toTransform.isSome = true) :
+    k ∈ Rio.Consts.markerTransformerKinds.map String.toList := by
+  unfold Transformer.toTransform at h
+  rw [hk] at h
+  simp only [] at h
+  simp only [Rio.Consts.markerTransformerKinds, List.map_cons, List.map_nil, List.mem_cons]
+  split at h
+  · left; assumption
+  · split at h
+    · right; left; assumption
+    · split at h
+      · right; right; left; assumption
+      · split at h
+        · right; right; right; left; assumption
+        · split at h
+          · right; right; right; right; left; assumption
+          · split at h
+            · right; right; right; right; right; left; assumption
+            · split at h
+              · right; right; right; right; right; right; left; assumption
+              · simp at h
+
 /-! ### The concrete transformers -/
 
 /-- `Slice` after the repair of D7: an inverted range selects nothing (the unrepaired code panicked). -/
